@@ -30,11 +30,8 @@ func init() {
 		}
 		return r
 	}
-	abs := func(k int64) (*big.Int, bool) {
-		if k < 0 {
-			return big.NewInt(-k), true
-		}
-		return big.NewInt(k), false
+	abs := func(k *big.Int) (*big.Int, bool) {
+		return new(big.Int).Abs(k), k.Sign() < 0
 	}
 	register(&adapter{
 		name:        "bn254",
@@ -65,7 +62,7 @@ func init() {
 		step2: func(prev, next contribution) error {
 			return prev.(*mpcsetup.Phase2).Verify(next.(*mpcsetup.Phase2))
 		},
-		g1Mul: func(b []byte, k int64) ([]byte, error) {
+		g1Mul: func(b []byte, k *big.Int) ([]byte, error) {
 			var p curve.G1Affine
 			if _, err := p.SetBytes(b); err != nil {
 				return nil, err
@@ -78,7 +75,7 @@ func init() {
 			r := p.Bytes()
 			return r[:], nil
 		},
-		g2Mul: func(b []byte, k int64) ([]byte, error) {
+		g2Mul: func(b []byte, k *big.Int) ([]byte, error) {
 			var p curve.G2Affine
 			if _, err := p.SetBytes(b); err != nil {
 				return nil, err
